@@ -50,6 +50,13 @@ def run(res, a):
     if a.replay:
         rep = json.load(open(a.replay))
         c = {"id": "replay", "line": rep["case"], "kind": "replay", "meta": rep.get("meta"), "stream": rep.get("stream", "")}
+        if rep["case"].startswith("pf "):
+            import os
+            o = core.shard_run(os.path.join(core.BUILD, "hcdrv"), "conn", ["replay " + rep["case"]]).get("replay", "NO-OUTPUT")
+            res.cases += 1
+            if o != "ok":
+                res.violations.append(("plain-framing", dict(rep, implementation_observed=o[:300])))
+            return
         if rep["case"].startswith("xdec ") or rep["case"].startswith("sk "):
             import os
             fam = "frame" if rep["case"].startswith("xdec ") else "stack"
@@ -285,6 +292,30 @@ def run(res, a):
         res.violations.append(("plaintext-behind-finish", {"property": ID, "family": "stack", "seed": res.seed, "case": inj["line"], "implementation_observed": o[-200:],
                                "required": "the scenario must run (harness failure?)", "failing_input_found": False, "replay": "python3 tools/check.py C05 --replay <this file>"}))
     res.obligations.append(("implementation-side run: plaintext requests behind a genuine pair-verify finish are never served", last.startswith("INJ=none"), last))
+    # the plaintext phase hands the HTTP layer one request at a time (Pipeline.framed): requests arriving back to back in arbitrary
+    # segments, read with arbitrary buffer sizes; no read crosses a request boundary, nothing of the next request is handed over
+    # while one is being handled, nothing is lost
+    pf = []
+    for i in range(40 if quick else 1500):
+        lens = ",".join("%d/%d" % (rng.choice([60, 64, 65, 80, 200, 1000, 4095, 4096, 5000]), rng.choice([0, 0, 1, 40, 300, 1500, 4096, 9000])) for _ in range(rng.randrange(1, 6)))
+        segs = ",".join(str(rng.choice([1, 2, 3, 7, 64, 100, 1024, 1448, 4096, 100000])) for _ in range(rng.randrange(1, 6)))
+        bufs = ",".join(str(rng.choice([1, 1, 2, 16, 100, 512, 4096, 8192])) for _ in range(rng.randrange(1, 5)))
+        pf.append({"id": "pf%d" % i, "kind": "plain-framing", "line": "pf %s %s %s" % (lens, segs, bufs)})
+    pobs = core.shard_run(os.path.join(core.BUILD, "hcdrv"), "conn", ["%s %s" % (c["id"], c["line"]) for c in pf])
+    pbad = 0
+    for c in pf:
+        o = pobs.get(c["id"], "NO-OUTPUT")
+        res.cases += 1
+        res.distinct.add(core.sha(c["line"]))
+        res.nontrivial.add(core.sha(c["line"]))
+        res.count("kind:" + c["kind"])
+        if o != "ok":
+            pbad += 1
+            res.violations.append(("plain-framing", {"property": ID, "family": "conn", "seed": res.seed, "case": c["line"], "implementation_observed": o[:300],
+                                   "required": "before a connection is encrypted the HTTP layer is handed one request at a time (what was received behind a pair-verify finish is the beginning of the encrypted stream): " + o[:160],
+                                   "failing_input_found": True, "replay": "python3 tools/check.py C05 --replay <this file>"}))
+    res.obligations.append(("implementation-side runs: the plaintext phase hands over one request at a time", pbad == 0, "%d runs, %d failing" % (len(pf), pbad)))
+
 
 
 class Counter:
